@@ -10,3 +10,19 @@ def extend(claim, NA):
           'Bounded solver-based check: location build/parse inverse and name injectivity by symbolic strings/bytes through the real helpers (CrossHair+z3); completeness and confinement of delete and clean from every state of a symbolic state vector (owners, reference matrix, orphans, command) executed on the real command bodies with real crypto.',
           'hex strings up to 6 characters (functions only slice); states up to 2x2 quick / 3x3 thorough; the chunk and snapshot areas contain only replicat objects; inline executor.',
           'symbolic execution of location helpers (CrossHair+z3) + solver-exhausted state vectors over real delete/clean', '3/C08')
+    claim('C04',
+          'Bounded solver-based check: the lifted restore._download_chunk, _download_snapshot_threadsafe and the snapshot tag filter are traced by CrossHair+z3 with SYMBOLIC stored/downloaded bytes (<=7 / <=3) and symbolic hex names under idealised crypto - every path raises or delivers the original plaintext; plus a solver-exhausted corruption vector (object x kind x position) over a real repository restored twice with a cache.',
+          'collision resistance and AEAD unforgeability idealised in the S obligations; E.corrupt uses 15 objects, 40 positions per object.',
+          'symbolic execution of lifted restore/_load_snapshots closures with symbolic object bytes (CrossHair+z3) + solver-exhausted corruption vectors', '3/C04')
+    claim('C10',
+          'Bounded solver-based check of the real C++: LLVM IR of next_cut compiled from the current source is executed symbolically into z3 bit-vectors (64-bit min/max/size, symbolic bytes and key, loop unrolled to max<=64/128 with unwinding assertion): memory safety, length/alignment contract, locality (2-safety) and purity are unsat queries; the Python adapter is checked against ANY cutter obeying that contract and against the source-built cutter.',
+          'pclmulqdq uninterpreted; callee precondition assumed on the IR and established on the adapter; max beyond the unrolling bound not covered; shipped .so cannot be rebuilt (translator validated against a source-built library every run).',
+          'LLVM IR -> SMT (z3 bit-vectors) bounded model checking of next_cut + solver-exhausted vectors over the Python adapter', '3/C10')
+    claim('C11',
+          'Algebraic clauses only: locality of a cut decision (z3 2-safety query on the IR), its end-to-end consequence for common suffixes on the source-built cutter, and key sensitivity as a bit-exact sat witness replayed natively. The probabilistic re-synchronisation bound is NOT claimed (an SMT solver does not decide probabilities).',
+          'as C10; statistical clause outside the claim.',
+          'LLVM IR -> SMT self-composition (z3) + bit-exact CLMUL witness query', '3/C11')
+    claim('C18',
+          'Bounded solver-based check: the real _download_snapshot_threadsafe traced by CrossHair+z3 with SYMBOLIC cache entries (any bytes <=3, any proper prefix of the content) and symbolic wrong downloads; result must equal the cache-less result. Plus a solver-exhausted vector of command histories x cache sharing x cache-file corruption comparing cached and cache-less clients on the real stack.',
+          'hash idealised as injective in K1-K3; histories of 2 free commands + 1 delete by 3 users.',
+          'symbolic execution with symbolic cache bytes (CrossHair+z3) + solver-exhausted history/corruption vectors', '3/C18')
